@@ -7,10 +7,14 @@ package main
 import (
 	"bytes"
 	"encoding/base64"
+	"encoding/gob"
 	"encoding/hex"
 	"encoding/json"
+	"encoding/xml"
 	"fmt"
+	"io"
 	"math/big"
+	"mime"
 	"net/http"
 	"sort"
 	"strconv"
@@ -94,6 +98,105 @@ func parseBody(w *rt.Wire) (val any, present, wellFormed bool) {
 		return val, true, false
 	}
 	return val, true, true
+}
+
+// wireBody reads the response body in the format its Content-Type announces and
+// flattens it to (attribute, canonical text) pairs. opaque: the body is well formed but
+// is not flattened (gob of a custom type, XML with nested / repeated elements).
+func wireBody(w *rt.Wire) (fs [][2]string, present, wellFormed, opaque bool) {
+	if w == nil {
+		return nil, false, false, false
+	}
+	ct, _ := hdr(w, "Content-Type")
+	mt := ct
+	if m, _, err := mime.ParseMediaType(ct); err == nil {
+		mt = m
+	}
+	raw := []byte(w.Body)
+	if strings.HasPrefix(w.Body, "base64:") {
+		raw, _ = base64.StdEncoding.DecodeString(strings.TrimPrefix(w.Body, "base64:"))
+	}
+	sniffXML := mt == "text/xml" && bytes.HasPrefix(bytes.TrimSpace(raw), []byte("<")) // text/xml: whichever of the two the server chose
+	switch {
+	case mt == "application/xml" || strings.HasSuffix(mt, "+xml") || sniffXML:
+		if len(bytes.TrimSpace(raw)) == 0 {
+			return nil, false, true, false
+		}
+		return xmlFields(raw)
+	case mt == "application/gob" || strings.HasSuffix(mt, "+gob"):
+		if len(raw) == 0 {
+			return nil, false, true, false
+		}
+		var six struct {
+			Name, ID, Message         string
+			Temporary, Timeout, Fault bool
+		}
+		if err := gob.NewDecoder(bytes.NewReader(raw)).Decode(&six); err != nil {
+			return nil, true, true, true
+		}
+		return serviceFields(six.Name, six.ID, six.Message, six.Timeout, six.Temporary, six.Fault), true, true, false
+	case mt == "text/html" || mt == "text/plain":
+		if len(raw) == 0 {
+			return nil, false, true, false
+		}
+		return [][2]string{{"", string(raw)}}, true, true, false
+	}
+	val, present, ok := parseBody(w)
+	return fieldsOfBody(val, present), present, ok, false
+}
+
+func xmlFields(raw []byte) (fs [][2]string, present, wellFormed, opaque bool) {
+	dec := xml.NewDecoder(bytes.NewReader(raw))
+	depth := 0
+	var name string
+	var text, rootText strings.Builder
+	seen := map[string]bool{}
+	for {
+		tok, err := dec.Token()
+		if err == io.EOF {
+			break
+		}
+		if err != nil {
+			return nil, true, false, false
+		}
+		switch t := tok.(type) {
+		case xml.StartElement:
+			depth++
+			if depth == 2 {
+				name = t.Name.Local
+				text.Reset()
+			}
+			if depth > 2 {
+				opaque = true
+			}
+		case xml.CharData:
+			if depth == 2 {
+				text.Write(t)
+			}
+			if depth == 1 {
+				rootText.Write(t)
+			}
+		case xml.EndElement:
+			if depth == 2 {
+				if seen[name] {
+					opaque = true
+				}
+				seen[name] = true
+				fs = append(fs, [2]string{name, text.String()})
+			}
+			depth--
+		}
+	}
+	if depth != 0 {
+		return nil, true, false, false
+	}
+	if opaque {
+		return nil, true, true, true
+	}
+	if len(fs) == 0 && rootText.Len() > 0 { // a non-object value: <Type>text</Type>
+		return [][2]string{{"", rootText.String()}}, true, true, false
+	}
+	return sortedFields(fs), true, true, false
 }
 
 // ---- canonical text of attribute values (both sides of every comparison)
@@ -328,6 +431,9 @@ func findingClass(ci *caseInfo) string {
 		}
 		return ""
 	}
+	if fc := acceptClass(ci); fc != "" {
+		return fc
+	}
 	if ci.Class == "service_named_like_custom" {
 		if e, ok := declaredIn(d, s, m, ci.ErrName); ok && e.Def.T != nil {
 			return "typed-as-nil-dereference"
@@ -367,6 +473,16 @@ func findingClass(ci *caseInfo) string {
 		if e.Resp.Body != nil && e.Resp.Body.Empty && ci.Err != nil {
 			hv = append(hv, ci.Err.ID, ci.Err.Message)
 		}
+		for _, h := range e.Resp.Headers {
+			if ci.Err != nil {
+				switch h.Attr {
+				case "message":
+					hv = append(hv, ci.Err.Message)
+				case "id":
+					hv = append(hv, ci.Err.ID)
+				}
+			}
+		}
 	} else if ci.Sent != nil {
 		for _, h := range e.Resp.Headers {
 			if v := ci.Sent.Get(h.Attr); v != nil && v.K == "string" {
@@ -385,6 +501,69 @@ func findingClass(ci *caseInfo) string {
 		}
 	}
 	return ""
+}
+
+// xmlAmbiguous: an XML body does not tell a one-element array from a scalar; bodies of
+// custom error types with non-primitive attributes are not flattened when sent as XML.
+func xmlAmbiguous(ci *caseInfo, w *rt.Wire) bool {
+	if ci.Sent == nil || w == nil {
+		return false
+	}
+	ct, _ := hdr(w, "Content-Type")
+	if !strings.Contains(ct, "xml") {
+		return false
+	}
+	for _, e := range ci.Sent.Elems {
+		if e != nil && (e.K == "array" || e.K == "map" || e.K == "object") {
+			return true
+		}
+	}
+	return ci.Sent.K == "array" || ci.Sent.K == "map"
+}
+
+// acceptClass: the content-negotiation findings (the codecs are C15's subject; here they
+// decide whether an error reaches the client).
+func acceptClass(ci *caseInfo) string {
+	mt := ci.Accept
+	if m, _, err := mime.ParseMediaType(ci.Accept); err == nil {
+		mt = m
+	}
+	switch mt {
+	case "text/html", "text/plain":
+		return "text-accept-empty-error-body"
+	case "application/gob":
+		zero := false
+		if ci.Err != nil && ci.Err.Kind != "custom" && ci.Err.Kind != "plain" {
+			zero = !ci.Err.Timeout || !ci.Err.Temporary || !ci.Err.Fault || ci.Err.ID == "" || ci.Err.Message == ""
+		}
+		if ci.Sent != nil {
+			for _, e := range ci.Sent.Elems {
+				if e != nil && isZero(e) {
+					zero = true
+				}
+			}
+		}
+		if zero {
+			return "gob-zero-values-missing"
+		}
+	}
+	return ""
+}
+
+func isZero(v *dg.Val) bool {
+	switch v.K {
+	case "bool":
+		return !v.B
+	case "int":
+		return v.I == 0
+	case "uint":
+		return v.U == 0
+	case "float":
+		return v.F == 0
+	case "string":
+		return v.S == ""
+	}
+	return false
 }
 
 // mappingLevelType returns the type the error has at the level whose HTTP mapping the
@@ -421,7 +600,7 @@ func oracle(res *vh.Result, ci *caseInfo, ob *rt.Obs) {
 		}
 		in := map[string]any{"stream": ci.Stream, "class": ci.Class, "design": ci.Design, "key": ci.Key, "service": ci.Service, "method": ci.Method,
 			"error_name": ci.ErrName, "scripted_error": ci.Err, "sent_value": ci.Sent, "raw_request": ci.Raw, "payload": ci.Payload,
-			"wire_response": ob.Resp, "client_error": ob.ClientErr, "write_headers": ob.WriteHeaders, "invoked": ob.Invoked}
+			"accept": ci.Accept, "wire_response": ob.Resp, "client_error": ob.ClientErr, "write_headers": ob.WriteHeaders, "invoked": ob.Invoked}
 		if ob.Panic != "" {
 			in["panic"] = strings.SplitN(ob.Panic, "\n", 2)[0]
 		}
@@ -461,12 +640,13 @@ func oracle(res *vh.Result, ci *caseInfo, ob *rt.Obs) {
 	if ob.WriteHeaders != 1 {
 		fail("write-header-count:"+cls, fmt.Sprintf("WriteHeader ran %d times, exactly one response header must be written", ob.WriteHeaders))
 	}
-	body, present, ok := parseBody(ob.Resp)
+	bf, _, ok, opaque := wireBody(ob.Resp)
+	opaque = opaque || xmlAmbiguous(ci, ob.Resp)
 	if !ok {
-		fail("malformed-body:"+cls, "the response body is not one well-formed JSON document: "+ob.Resp.Body)
+		ct, _ := hdr(ob.Resp, "Content-Type")
+		fail("malformed-body:"+cls, "the response body is not one well-formed document of the announced Content-Type "+ct+": "+ob.Resp.Body)
 		return
 	}
-	bf := fieldsOfBody(body, present)
 	goaErr, hasGoaErr := hdr(ob.Resp, "goa-error")
 
 	switch {
@@ -509,7 +689,7 @@ func oracle(res *vh.Result, ci *caseInfo, ob *rt.Obs) {
 		}
 		want := serviceFields(sp.Name, sp.ID, sp.Message, sp.Timeout, sp.Temporary, sp.Fault)
 		gotWire := wireFields(ob.Resp, e.Resp, bf, []string{"name", "id", "message", "temporary", "timeout", "fault"})
-		if !sameFields(gotWire, want) {
+		if !opaque && !sameFields(gotWire, want) {
 			fail("declared-wire-attributes", fmt.Sprintf("error %q: attributes on the wire %v, the service returned %v", ci.ErrName, gotWire, want))
 		}
 		ce := ob.ClientErr
@@ -540,7 +720,7 @@ func oracle(res *vh.Result, ci *caseInfo, ob *rt.Obs) {
 			names = append(names, f.Name)
 		}
 		gotWire := wireFields(ob.Resp, e.Resp, bf, names)
-		if !sameFields(gotWire, want) {
+		if !opaque && !sameFields(gotWire, want) {
 			fail("declared-wire-attributes", fmt.Sprintf("error %q: attributes on the wire %v, the service returned %v", ci.ErrName, gotWire, want))
 		}
 		ce := ob.ClientErr
@@ -581,7 +761,7 @@ func oracle(res *vh.Result, ci *caseInfo, ob *rt.Obs) {
 			fail("undeclared-service-status", fmt.Sprintf("status %d for an undeclared service error with timeout=%v temporary=%v fault=%v, the flags imply %d", ob.Resp.Status, sp.Timeout, sp.Temporary, sp.Fault, want))
 		}
 		wf := serviceFields(sp.Name, sp.ID, sp.Message, sp.Timeout, sp.Temporary, sp.Fault)
-		if !sameFields(bf, wf) {
+		if !opaque && !sameFields(bf, wf) {
 			fail("undeclared-service-body", fmt.Sprintf("body %v, the service returned %v", bf, wf))
 		}
 		if hasGoaErr {
